@@ -14,14 +14,14 @@ From TLXV Require Import Common.Order C06.PMS C06.MergeLemmas C06.Layout C06.Cut
 Import ListNotations.
 
 (** parallel_mergesort: for every strict weak order, every input (n >= 0), every thread count >= 1
-    (clamped to n inside), both splittings, every oversampling >= 1: the range ends as a permutation
+    (clamped to n inside), both splittings, every oversampling factor (>= 1 when the splitting is by sampling; unused by exact splitting): the range ends as a permutation
     of the input in non-decreasing comparator order; no piece has negative length or leaves its run
     and no output window leaves the range ([res_ok]). *)
 Theorem C06_parallel_mergesort_sorted_permutation :
   forall (A : Type) (ltb : A -> A -> bool), SWO ltb ->
   forall lsort ssort partition mmerge (d : A),
     sorts ltb lsort -> sorts ltb ssort -> partitions ltb partition -> merges ltb mmerge ->
-  forall (sampling : bool) (os p : nat) (input : list A), 1 <= os -> 1 <= p ->
+  forall (sampling : bool) (os p : nat) (input : list A), (sampling = true -> 1 <= os) -> 1 <= p ->
     let r := pms ltb lsort ssort partition mmerge d sampling os p input in
     Permutation (res_array r) input /\ SS ltb (res_array r) /\ res_ok r = true.
 Proof. exact @pms_sorted_permutation. Qed.
@@ -35,7 +35,7 @@ Theorem C06_stable_parallel_mergesort_is_stable_sort :
     sorts ltb lsort -> sorts ltb ssort -> partitions ltb partition -> merges ltb mmerge ->
     (forall l, lsort l = stable_sort ltb l) ->
     (forall seqs, Forall (SS ltb) seqs -> mmerge seqs = smerge ltb seqs) ->
-  forall (sampling : bool) (os p : nat) (input : list A), 1 <= os -> 1 <= p ->
+  forall (sampling : bool) (os p : nat) (input : list A), (sampling = true -> 1 <= os) -> 1 <= p ->
     res_array (pms ltb lsort ssort partition mmerge d sampling os p input) = stable_sort ltb input.
 Proof. exact @pms_stable. Qed.
 Print Assumptions C06_stable_parallel_mergesort_is_stable_sort.
@@ -58,7 +58,7 @@ Theorem C06_pieces_partition :
   forall (A : Type) (ltb : A -> A -> bool), SWO ltb ->
   forall lsort ssort partition (d : A),
     sorts ltb lsort -> sorts ltb ssort -> partitions ltb partition ->
-  forall (sampling : bool) (os : nat), 1 <= os ->
+  forall (sampling : bool) (os : nat), (sampling = true -> 1 <= os) ->
   forall (input : list A) (p : nat), 1 <= p -> p <= length input ->
   forall s, s < p ->
     let pc t := nth t (pcs ltb lsort ssort partition d sampling os input p) {| pbegin := []; pend := [] |} in
@@ -77,7 +77,7 @@ Theorem C06_windows_partition :
   forall (A : Type) (ltb : A -> A -> bool), SWO ltb ->
   forall lsort ssort partition mmerge (d : A),
     sorts ltb lsort -> sorts ltb ssort -> partitions ltb partition -> merges ltb mmerge ->
-  forall (sampling : bool) (os p0 : nat) (input : list A), 1 <= os -> 1 <= p0 -> 2 <= length input ->
+  forall (sampling : bool) (os p0 : nat) (input : list A), (sampling = true -> 1 <= os) -> 1 <= p0 -> 2 <= length input ->
     let w := res_windows (pms ltb lsort ssort partition mmerge d sampling os p0 input) in
     let p := clamp_threads (length input) p0 in
     length w = p /\ fst (nth 0 w (0, 0)) = 0 /\
@@ -93,7 +93,7 @@ Theorem C06_race_free_model :
   forall (A : Type) (ltb : A -> A -> bool), SWO ltb ->
   forall lsort ssort partition mmerge (d : A),
     sorts ltb lsort -> sorts ltb ssort -> partitions ltb partition -> merges ltb mmerge ->
-  forall (sampling : bool) (os p0 : nat), 1 <= os -> 1 <= p0 ->
+  forall (sampling : bool) (os p0 : nat), (sampling = true -> 1 <= os) -> 1 <= p0 ->
   forall input : list A, 2 <= length input ->
     let p := clamp_threads (length input) p0 in
     let w := res_windows (pms ltb lsort ssort partition mmerge d sampling os p0 input) in
@@ -123,7 +123,7 @@ Theorem C06_result_independent_of_schedule :
   forall (A : Type) (ltb : A -> A -> bool), SWO ltb ->
   forall lsort ssort partition mmerge (d : A),
     sorts ltb lsort -> sorts ltb ssort -> partitions ltb partition -> merges ltb mmerge ->
-  forall (sampling : bool) (os p0 : nat), 1 <= os -> 1 <= p0 ->
+  forall (sampling : bool) (os p0 : nat), (sampling = true -> 1 <= os) -> 1 <= p0 ->
   forall input : list A, 2 <= length input ->
   forall (outs : nat -> list A) (m0 : nat -> A) evs,
     let p := clamp_threads (length input) p0 in
@@ -169,7 +169,7 @@ Print Assumptions C06_split_spec_is_the_split.
     implementations of the four building blocks, elements (key, original index), comparator less or
     greater on the key): closed theorem, no hypotheses left. *)
 Theorem C06_extracted_model_correct :
-  forall rev sampling os p input, 1 <= os -> 1 <= p ->
+  forall rev sampling os p input, (sampling = true -> 1 <= os) -> 1 <= p ->
     res_array (pms_ref rev sampling os p input) = stable_sort_ref rev input /\
     res_ok (pms_ref rev sampling os p input) = true.
 Proof. exact pms_ref_correct. Qed.
@@ -202,7 +202,7 @@ Print Assumptions C06_c05_c08_adapters.
 Theorem C06_parallel_mergesort_sorted_permutation_closed :
   forall (A : Type) (ltb : A -> A -> bool), SWO ltb ->
   forall lsort ssort (d : A), sorts ltb lsort -> sorts ltb ssort ->
-  forall (stable sampling : bool) (os p : nat) (input : list A), 1 <= os -> 1 <= p ->
+  forall (stable sampling : bool) (os p : nat) (input : list A), (sampling = true -> 1 <= os) -> 1 <= p ->
     let r := pms ltb lsort ssort (partition_c08 ltb) (mmerge_c05 ltb stable) d sampling os p input in
     Permutation (res_array r) input /\ SS ltb (res_array r) /\ res_ok r = true.
 Proof. exact @pms_c08_c05_sorted_permutation. Qed.
@@ -211,7 +211,7 @@ Print Assumptions C06_parallel_mergesort_sorted_permutation_closed.
 Theorem C06_stable_parallel_mergesort_is_stable_sort_closed :
   forall (A : Type) (ltb : A -> A -> bool), SWO ltb ->
   forall lsort ssort (d : A), sorts ltb lsort -> sorts ltb ssort ->
-  forall (sampling : bool) (os p : nat) (input : list A), 1 <= os -> 1 <= p ->
+  forall (sampling : bool) (os p : nat) (input : list A), (sampling = true -> 1 <= os) -> 1 <= p ->
     (forall l, lsort l = stable_sort ltb l) ->
     res_array (pms ltb lsort ssort (partition_c08 ltb) (mmerge_c05 ltb true) d sampling os p input) = stable_sort ltb input.
 Proof. exact @pms_c08_c05_stable. Qed.
@@ -224,7 +224,7 @@ Print Assumptions C06_stable_parallel_mergesort_is_stable_sort_closed.
 Theorem C06_parallel_mergesort_sorted_permutation_closed_c09 :
   forall (A : Type) (ltb : A -> A -> bool), SWO ltb ->
   forall (dk : A) lsort ssort (d : A), sorts ltb lsort -> sorts ltb ssort ->
-  forall (ptr stable sampling : bool) (os p : nat) (input : list A), 1 <= os -> 1 <= p ->
+  forall (ptr stable sampling : bool) (os p : nat) (input : list A), (sampling = true -> 1 <= os) -> 1 <= p ->
     let r := pms ltb lsort ssort (partition_c08 ltb) (mmerge_c09 ltb dk ptr stable) d sampling os p input in
     Permutation (res_array r) input /\ SS ltb (res_array r) /\ res_ok r = true.
 Proof. exact @pms_c08_c09_sorted_permutation. Qed.
@@ -233,7 +233,7 @@ Print Assumptions C06_parallel_mergesort_sorted_permutation_closed_c09.
 Theorem C06_stable_parallel_mergesort_is_stable_sort_closed_c09 :
   forall (A : Type) (ltb : A -> A -> bool), SWO ltb ->
   forall (dk : A) lsort ssort (d : A), sorts ltb lsort -> sorts ltb ssort ->
-  forall (ptr sampling : bool) (os p : nat) (input : list A), 1 <= os -> 1 <= p ->
+  forall (ptr sampling : bool) (os p : nat) (input : list A), (sampling = true -> 1 <= os) -> 1 <= p ->
     (forall l, lsort l = stable_sort ltb l) ->
     res_array (pms ltb lsort ssort (partition_c08 ltb) (mmerge_c09 ltb dk ptr true) d sampling os p input) = stable_sort ltb input.
 Proof. exact @pms_c08_c09_stable. Qed.
